@@ -483,3 +483,130 @@ Proof.
   - vm_compute in H. repeat (destruct H as [H|H]; [discriminate H|]). exact H.
   - vm_compute. right. left. reflexivity.
 Qed.
+
+(* ------------------------------------------------------------------ *)
+(* Drain and the wheel goroutine.  drainAll runs ON the wheel goroutine and hands the drained
+   timers to a runner of [width] workers.  While the wheel goroutine is inside drainAll it takes no
+   request and no tick.  Two variants of "when does it leave drainAll":
+     - the tree before pending/C12-drain-off-wheel-goroutine.diff: when every task has been handed
+       to a worker ([wait_all = false]; Schedule blocks while [width] callbacks are running);
+     - seeded change C12-11: when every callback has RETURNED ([wait_all = true], runner.Wait()).
+   A callback that calls back into the wheel ([react x = Some a]) returns only after the wheel
+   goroutine has taken its call.  The model of Deliver.v (the repaired code: drainAll only collects,
+   delivery happens off the wheel goroutine) has no such state: every call is taken. *)
+
+From GZ Require Import Lib.CheckLib.
+
+Record dr_state := mkDR
+  { dr_queue : fired;        (* drained tasks not yet handed to a worker *)
+    dr_running : fired;      (* callbacks running on workers *)
+    dr_wheel : astate }.
+
+Section DrainOnLoop.
+Variable width : nat.
+Variable wait_all : bool.
+Variable react : Z * Z -> option aop.
+
+(* hand tasks to free workers *)
+Fixpoint dr_fill (fuel : nat) (q run : fired) : fired * fired :=
+  match fuel, q with
+  | S fuel', x :: q' => if Nat.ltb (length run) width then dr_fill fuel' q' (run ++ [x]) else (q, run)
+  | _, _ => (q, run)
+  end.
+
+(* is the wheel goroutine still inside drainAll? *)
+Definition dr_busy (s : dr_state) : bool :=
+  match dr_queue s with
+  | _ :: _ => true
+  | [] => if wait_all then match dr_running s with [] => false | _ => true end else false
+  end.
+
+Inductive dr_ev :=
+| DCall (o : aop)            (* some goroutine calls the API / the ticker offers a tick *)
+| DReturn (x : Z * Z).       (* the callback of x (running on a worker) finishes *)
+
+(* None: the event cannot happen in this state (the caller stays blocked) *)
+Definition dr_step (s : dr_state) (e : dr_ev) : option dr_state :=
+  match e with
+  | DCall o =>
+    if dr_busy s then None
+    else let '(a', f, _) := astep (dr_wheel s) o in
+         match o with
+         | ADrain => let '(q, run) := dr_fill (length f) f (dr_running s) in Some (mkDR q run a')
+         | _ => Some (mkDR (dr_queue s) (dr_running s) a')   (* tick callbacks run off the wheel goroutine *)
+         end
+  | DReturn x =>
+    if existsb (pair_eqb x) (dr_running s) then
+      match react x with
+      | Some a =>
+        (* it must get its call through first *)
+        if dr_busy s then None
+        else let '(a', _, _) := astep (dr_wheel s) a in
+             Some (mkDR (dr_queue s) (filter (fun y => negb (pair_eqb x y)) (dr_running s)) a')
+      | None =>
+        let run := filter (fun y => negb (pair_eqb x y)) (dr_running s) in
+        let '(q, run') := dr_fill (length (dr_queue s)) (dr_queue s) run in
+        Some (mkDR q run' (dr_wheel s))
+      end
+    else None
+  end.
+
+Fixpoint dr_run (s : dr_state) (es : list dr_ev) : option dr_state :=
+  match es with
+  | [] => Some s
+  | e :: es' => match dr_step s e with Some s' => dr_run s' es' | None => None end
+  end.
+
+(* dead: callbacks are running, none of them can finish, and no call or tick is ever taken again *)
+Definition dr_dead (s : dr_state) : Prop :=
+  dr_running s <> [] /\ (forall x, dr_step s (DReturn x) = None) /\ (forall o, dr_step s (DCall o) = None).
+End DrainOnLoop.
+
+Lemma dr_dead_intro width wait_all react s :
+  dr_running s <> [] -> dr_busy wait_all s = true ->
+  forallb (fun x => match react x with Some _ => true | None => false end) (dr_running s) = true ->
+  dr_dead width wait_all react s.
+Proof.
+  intros Hr Hb Hall. split; [exact Hr|]. split.
+  - intros x. unfold dr_step. destruct (existsb (pair_eqb x) (dr_running s)) eqn:E; [|reflexivity].
+    apply existsb_exists in E. destruct E as (y & Hy & Hxy).
+    rewrite forallb_forall in Hall. specialize (Hall y Hy).
+    assert (x = y) as ->.
+    { unfold pair_eqb in Hxy. apply andb_true_iff in Hxy. destruct Hxy as [H1 H2].
+      apply Z.eqb_eq in H1. apply Z.eqb_eq in H2. destruct x, y; cbn in *; congruence. }
+    destruct (react y); [|discriminate]. now rewrite Hb.
+  - intros o. unfold dr_step. now rewrite Hb.
+Qed.
+
+(* seed C12-11: ONE pending timer whose drain callback re-sets its key: the wheel is dead, the
+   re-set is never accepted (while the model of the repaired code takes it and fires it) *)
+Theorem seed_c12_11_refuted :
+  exists n i react es s,
+    dr_run 8 true react (mkDR [] [] (ainit n i)) es = Some s /\ dr_dead 8 true react s.
+Proof.
+  exists 4, 10, (fun x => if snd x =? 700 then Some (ASet (Some (fst x)) 6 20) else None),
+         [DCall (ASet (Some 1) 700 30); DCall ADrain].
+  eexists. split; [vm_compute; reflexivity|]. apply dr_dead_intro; vm_compute; [discriminate|reflexivity|reflexivity].
+Qed.
+
+(* the tree before the repair: 9 pending timers with re-entrant drain callbacks (8 fill the runner,
+   Schedule blocks on the 9th): dead as well; with 8 the wheel goroutine leaves drainAll *)
+Definition nine_sets : list dr_ev :=
+  map (fun k => DCall (ASet (Some k) 700 30)) [1; 2; 3; 4; 5; 6; 7; 8; 9].
+
+Theorem drain_on_wheel_goroutine_refuted :
+  exists n i react es s,
+    dr_run 8 false react (mkDR [] [] (ainit n i)) es = Some s /\ dr_dead 8 false react s.
+Proof.
+  exists 10, 10, (fun x => if snd x =? 700 then Some (ASet (Some (fst x)) 6 20) else None),
+         (nine_sets ++ [DCall ADrain]).
+  eexists. split; [vm_compute; reflexivity|]. apply dr_dead_intro; vm_compute; [discriminate|reflexivity|reflexivity].
+Qed.
+
+Example eight_reentrant_callbacks_are_fine :
+  let react := fun x : Z * Z => if snd x =? 700 then Some (ASet (Some (fst x)) 6 20) else None in
+  match dr_run 8 false react (mkDR [] [] (ainit 10 10)) (firstn 8 nine_sets ++ [DCall ADrain; DReturn (1, 700); DCall ATick]) with
+  | Some s => dr_busy false s = false /\ length (dr_running s) = 7%nat
+  | None => False
+  end.
+Proof. vm_compute. split; reflexivity. Qed.
